@@ -104,8 +104,8 @@ PLAN = {
         "prop": [],
         "mc_quick": [("CfgsQ1", {"maxclock": 1})],
         "vacuity": [("DevIdle", "CfgsQ1", "ReuseGate"), ("DevIdle", "CfgsQ1", "OwnResponse")],
-        "scen_quick": ["h1-max1-abandon", "h1-max1-close", "h1-max1-early", "h1-max1-mixed-ends"],
-        "scen_thorough": ["h1-max1-abandon", "h1-max1-close", "h1-max1-http10", "h1-max1-early", "h1-max1-mixed-ends", "h1-max2-AAAB-mixed", "h1-max1-AAB", "h1-max2-AAAA"],
+        "scen_quick": ["h1-max1-abandon", "h1-max1-close", "h1-max1-early", "h1-max1-mixed-ends", "h1-max1-interim"],
+        "scen_thorough": ["h1-max1-abandon", "h1-max1-close", "h1-max1-http10", "h1-max1-early", "h1-max1-mixed-ends", "h1-max1-interim", "h1-max2-AAAB-mixed", "h1-max1-AAB", "h1-max2-AAAA"],
         "strategies": ["base", "dfs", "fault", "cancel-scope", "sequential"],
     },
     "C14": {
